@@ -312,8 +312,30 @@ def node_level(run, thorough):
     L = len(probe)
     cutsets = [[], [2047], [2048], [2049], [4096], [2048, 4096], [L], [L - 1], [L + 1], [20], [19], [K * L - 1],
                [2048 + 1, 2048 + 2]] + ([[c] for c in range(2040, 2056)] if thorough else [])
-    for waiting_dwa in (False, True):
-        for cuts in cutsets:
+    import logging
+    # every logger of the package at DEBUG: the dump / statistics code that runs on the reader thread is exercised too
+    quiet = logging.NullHandler()
+    lg = logging.getLogger("diameter")
+    old_level = lg.level
+    lg.addHandler(quiet)
+    lg.setLevel(logging.DEBUG)
+    was_disabled = logging.root.manager.disable
+    logging.disable(logging.NOTSET)          # (the checks run with logging switched off globally)
+    try:
+        _node_level(run, cutsets, K, L)
+    finally:
+        logging.disable(was_disabled)
+        lg.setLevel(old_level)
+        lg.removeHandler(quiet)
+
+
+def _node_level(run, cutsets, K, L):
+    import nodesim as NS
+    from vsim import Sim
+    from diameter.message import Message
+    from diameter.message.avp import Avp
+    for waiting_dwa, joined in ((False, False), (True, False), (False, True)):
+        for cuts in (cutsets if not joined else [[], [L], [2048]]):
             sim = Sim(seed=1, t0=NS.T0)
             try:
                 sim.script_random([77, 12345])
@@ -327,17 +349,24 @@ def node_level(run, thorough):
                 sim.script_random([1000])
                 r = sim.connect_in()
                 sim.run()
-                r.feed(NS.build_message(dict(kind="cer", host="cli0.example.net", hbh=1, e2e=1)))
-                sim.run()
-                r.take_messages()
+                cer = NS.build_message(dict(kind="cer", host="cli0.example.net", hbh=1, e2e=1))
+                if not joined:
+                    r.feed(cer)
+                    sim.run()
+                    r.take_messages()
                 frames = [NS.build_message(dict(kind="dwr", host="cli0.example.net", hbh=100 + i, e2e=500 + i)) for i in range(K)]
+                # a watchdog request that carries an AVP outside its definition, Grouped with garbage inside: it decodes
+                # (extra AVPs stay as they are) and must be served like the others
+                odd = Message.from_bytes(frames[5])
+                odd.append_avp(Avp(443, 0, bytes.fromhex("0102030405ff"), 0x40))
+                frames[5] = odd.as_bytes()
                 if waiting_dwa:
                     sim.advance(7)          # the node's own DWR goes out: READY_WAITING_DWA
                     own = [m for m in r.take_messages() if m.header.is_request and m.header.command_code == 280]
                     if own:
                         frames.insert(3, NS.build_message(dict(kind="dwa", host="cli0.example.net", hbh=own[0].header.hop_by_hop_identifier,
                                                                e2e=own[0].header.end_to_end_identifier)))
-                stream = b"".join(frames)
+                stream = (cer if joined else b"") + b"".join(frames)     # joined: the CER and what follows arrive in ONE read
                 pos = 0
                 for c in sorted(set(x for x in cuts if 0 < x < len(stream))) + [len(stream)]:
                     r.feed(stream[pos:c])
@@ -346,8 +375,9 @@ def node_level(run, thorough):
                 sim.advance(1)
                 got = [m.header.hop_by_hop_identifier for m in r.take_messages() if not m.header.is_request and m.header.command_code == 280]
                 conn = next(iter(node.connections.values()), None)
-                case = {"scenario": "node-level stream of %d DWRs" % K, "cuts": cuts, "awaiting_dwa": waiting_dwa, "frame_len": L}
-                run.count(1, [("node-stream", tuple(cuts), waiting_dwa)])
+                case = {"scenario": "node-level stream of %d DWRs" % K, "cuts": cuts, "awaiting_dwa": waiting_dwa, "frame_len": L,
+                        "cer_in_the_same_read": joined}
+                run.count(1, [("node-stream", tuple(cuts), waiting_dwa, joined)])
                 want = [100 + i for i in range(K)]
                 if got != want or sim.thread_deaths or conn is None or (waiting_dwa and conn.state != sim.peer_mod.PEER_READY):
                     run.violation("chunking-invariance", case,
